@@ -36,6 +36,12 @@ RULES = {
               "container edges / faces of the sampled mesh); returned normals are face_normals indexed by the same drawn faces",
     "C19-W1": "elements are drawn by choice(len(container), size=n_pts, p=w) where w is edge_length / face_area of the sampled mesh "
               "divided by its own sum (share of samples follows length / area)",
+    "C19-W2": "every definition of the draw weights that can reach choice(...) is computed in the same call from "
+              "edge_length(mesh) / face_area(mesh) (possibly normalised); weights are never read back from a stored attribute, "
+              "which would be stale after the vertices moved",
+    "C19-E1": "AABB.is_empty is the per-axis predicate `some axis has mini >= maxi` (decided by evaluating its expression on every "
+              "box with coordinates in {0,1,2}, dimensions 1-3), and sample_AABB raises on an empty box at the top level, before "
+              "any mode branch or draw",
     "C19-G1": "control points are read only as arguments of de_casteljau (or for their count); evaluation methods return "
               "de_casteljau results and forward their own parameters; the range guard of de_casteljau is `t<0 or t>1`, raises, "
               "precedes every use of t; the blend works on a fresh copy of the control list whose entries are only rebound",
@@ -84,6 +90,8 @@ def run(ctx):
     b1_barycentric(ctx)
     f1_drawn_element(ctx)
     w1_probabilities(ctx)
+    w2_fresh_weights(ctx)
+    e1_empty_box(ctx)
     g1_de_casteljau(ctx)
     s1_as_surface(ctx)
     ctx.repo.func(BEZ, "BezierCurve.as_polyline")
@@ -712,3 +720,279 @@ def _is_sum_of(e, w):
     return isinstance(e, ast.Call) and au.call_tail(e) == "sum" and (
         (e.args and isinstance(e.args[0], ast.Name) and e.args[0].id == w) or
         (isinstance(e.func, ast.Attribute) and isinstance(e.func.value, ast.Name) and e.func.value.id == w))
+
+
+# ----------------------------------------------------------------------- C19-W2
+def _defs_of(fn, name):
+    """all statements of fn that (re)bind `name` (Assign / AugAssign / AnnAssign / loop or with targets)"""
+    out = []
+    for st in au.stmts(fn.body):
+        if isinstance(st, (ast.Assign, ast.AnnAssign, ast.AugAssign)):
+            if any(name in au.assigned_names(t) for t in au.assign_targets(st)):
+                out.append(st)
+        elif isinstance(st, (ast.For, ast.AsyncFor)) and name in au.assigned_names(st.target):
+            out.append(st)
+        elif isinstance(st, (ast.With, ast.AsyncWith)) and any(it.optional_vars is not None and name in au.assigned_names(it.optional_vars)
+                                                                 for it in st.items):
+            out.append(st)
+    return out
+
+
+def _self_update(st, w):
+    """`w /= f(w)`, `w = w / f(w)`, `w = w * c`, `w = np.asarray(w)` ... : a rebinding of w computed from w alone"""
+    if isinstance(st, ast.AugAssign) and isinstance(st.target, ast.Name) and st.target.id == w:
+        return True
+    if isinstance(st, ast.Assign) and len(st.targets) == 1 and isinstance(st.targets[0], ast.Name) and st.targets[0].id == w:
+        return w in au.names(st.value)
+    return False
+
+
+def w2_fresh_weights(ctx):
+    n = 0
+    for name, container, measure in (("sample_polyline", "edges", "edge_length"), ("sample_surface", "faces", "face_area")):
+        fn = ctx.repo.func(SAMP, name)
+        site = ctx.site(SAMP, fn)
+        b = sym.Bindings(fn)
+        mesh_p = au.params(fn)[0]
+        draws = [c for c in au.calls(fn) if au.call_tail(c) == "choice"]
+        pk = None
+        if len(draws) == 1:
+            pk = next((k.value for k in draws[0].keywords if k.arg == "p"), draws[0].args[3] if len(draws[0].args) > 3 else None)
+        if not isinstance(pk, ast.Name):
+            n += 1
+            _lost(ctx, "C19-W2", site, f"{name}: weight array of the draw not found", "reported in detail by C19-W1")
+            continue
+        w = pk.id
+        defs = _defs_of(fn, w)
+        if not defs:
+            n += 1
+            _lost(ctx, "C19-W2", site, f"{name}: definition of the draw weights `{w}` not found", "the weights must be computed in this call")
+            continue
+        n_src = 0
+        for st in defs:
+            if _self_update(st, w):
+                # must not mix in anything stored: only w itself, numpy, constants
+                stored = [c for c in au.calls(st) if au.call_tail(c) in ("get_attribute", "has_attribute", "attribute")]
+                n += 1
+                ctx.check(not stored, "C19-W2", ctx.site(SAMP, fn, st),
+                          f"{name}: the draw weights are combined with a stored attribute", f"`{au.src(st)[:120]}`",
+                          note=f"{name}: `{au.src(st)[:60]}` rescales the weights")
+                continue
+            n += 1
+            n_src += 1
+            val = st.value if isinstance(st, (ast.Assign, ast.AnnAssign)) else None
+            e = _res(b, val, at=st, keep=(w, mesh_p)) if val is not None else None
+            calls = [x for x in au.walk(e) if isinstance(x, ast.Call) and au.call_tail(x) == measure] if e is not None else []
+            fresh = bool(calls) and all(c.args and isinstance(c.args[0], ast.Name) and c.args[0].id == mesh_p for c in calls)
+            stored = [c for c in (au.walk(e) if e is not None else []) if isinstance(c, ast.Call)
+                      and au.call_tail(c) in ("get_attribute", "has_attribute", "attribute")]
+            ctx.check(fresh and not stored, "C19-W2", ctx.site(SAMP, fn, st),
+                      f"{name}: a definition of the draw weights is not computed from {measure}({mesh_p}) in this call",
+                      f"`{au.src(st)[:140]}`: weights read back from a stored attribute (or from anything but the current geometry) are "
+                      f"stale once the vertices have moved - the share of samples per element no longer follows its {measure.split('_')[1]}",
+                      note=f"{name}: weights = {measure}({mesh_p}) computed in the call")
+        if n_src == 0:
+            n += 1
+            _lost(ctx, "C19-W2", site, f"{name}: definition of the draw weights `{w}` from {measure} not found", "")
+    _floor(ctx, "C19-W2", "C19-W2 obligations", n, 4)
+
+
+# ----------------------------------------------------------------------- C19-E1
+class _NoEval(Exception):
+    pass
+
+
+def _vec_eval(e, env, props, depth=0):
+    """Evaluate an expression of AABB over concrete corner tuples env = {'_p1': (..), '_p2': (..)} (tiny domain, the
+    expression is the extracted AST - repository code is not run).  Vectors are tuples, scalars numbers / bools."""
+    if depth > 6:
+        raise _NoEval("recursion")
+
+    def rec(x):
+        return _vec_eval(x, env, props, depth)
+
+    def lift(f, *xs):
+        n = max((len(x) for x in xs if isinstance(x, tuple)), default=None)
+        if n is None:
+            return f(*xs)
+        xs = [x if isinstance(x, tuple) else (x,) * n for x in xs]
+        if any(len(x) != n for x in xs):
+            raise _NoEval("shape")
+        return tuple(f(*t) for t in zip(*xs))
+    if isinstance(e, ast.Constant) and isinstance(e.value, (int, float, bool)):
+        return e.value
+    if isinstance(e, ast.Attribute) and isinstance(e.value, ast.Name) and e.value.id in ("self", "b", "box"):
+        if e.attr in env:
+            return env[e.attr]
+        if e.attr == "dim":
+            return len(env["_p1"])
+        if e.attr in props:
+            return _vec_eval(props[e.attr], env, props, depth + 1)
+        raise _NoEval(f"attribute {e.attr}")
+    if isinstance(e, ast.UnaryOp):
+        v = rec(e.operand)
+        if isinstance(e.op, ast.Not):
+            if isinstance(v, tuple):
+                raise _NoEval("not of a vector")
+            return not v
+        if isinstance(e.op, ast.USub):
+            return lift(lambda a: -a, v)
+        if isinstance(e.op, ast.Invert):
+            return lift(lambda a: not a, v)
+    if isinstance(e, ast.BinOp):
+        a, c = rec(e.left), rec(e.right)
+        import operator as op_
+        table = {ast.Add: op_.add, ast.Sub: op_.sub, ast.Mult: op_.mul, ast.BitOr: lambda x, y: bool(x) or bool(y),
+                 ast.BitAnd: lambda x, y: bool(x) and bool(y)}
+        if type(e.op) in table:
+            return lift(table[type(e.op)], a, c)
+        if isinstance(e.op, ast.Div):
+            try:
+                return lift(lambda x, y: x / y, a, c)
+            except ZeroDivisionError:
+                raise _NoEval("division by zero")
+    if isinstance(e, ast.Compare):
+        left = rec(e.left)
+        res = None
+        for o, cmp_ in zip(e.ops, e.comparators):
+            right = rec(cmp_)
+            if type(o) not in order.CMP:
+                raise _NoEval("comparison")
+            r = lift(order.CMP[type(o)], left, right)
+            res = r if res is None else lift(lambda x, y: x and y, res, r)
+            left = right
+        return res
+    if isinstance(e, ast.BoolOp):
+        vals = [rec(v) for v in e.values]
+        if any(isinstance(v, tuple) for v in vals):
+            raise _NoEval("and/or of vectors")
+        return all(vals) if isinstance(e.op, ast.And) else any(vals)
+    if isinstance(e, ast.IfExp):
+        t = rec(e.test)
+        if isinstance(t, tuple):
+            raise _NoEval("vector condition")
+        return rec(e.body) if t else rec(e.orelse)
+    if isinstance(e, ast.Call):
+        tail = au.call_tail(e)
+        args = [rec(a) for a in e.args]
+        if isinstance(e.func, ast.Attribute) and not (isinstance(e.func.value, ast.Name) and e.func.value.id in ("np", "numpy", "math")):
+            args = [rec(e.func.value)] + args
+        if e.keywords and not all(k.arg in ("axis",) for k in e.keywords):
+            raise _NoEval("keyword arguments")
+        v = args[0] if args else None
+        vec = v if isinstance(v, tuple) else ((v,) if v is not None else ())
+        if tail == "any" and len(args) == 1:
+            return any(vec)
+        if tail == "all" and len(args) == 1:
+            return all(vec)
+        if tail == "prod" and len(args) == 1:
+            out = 1
+            for x in vec:
+                out *= x
+            return out
+        if tail == "sum" and len(args) == 1:
+            return sum(vec)
+        if tail in ("min", "amin") and len(args) == 1:
+            return min(vec)
+        if tail in ("max", "amax") and len(args) == 1:
+            return max(vec)
+        if tail in ("minimum", "maximum") and len(args) == 2:
+            return lift(min if tail == "minimum" else max, args[0], args[1])
+        if tail in ("abs", "absolute", "fabs") and len(args) == 1:
+            return lift(abs, v)
+        if tail in ("bool", "float", "int", "Vec", "array", "asarray") and len(args) == 1:
+            return v if tail in ("Vec", "array", "asarray") else lift({"bool": bool, "float": float, "int": int}[tail], v) \
+                if not isinstance(v, tuple) else _raise("scalar conversion of a vector")
+        if tail == "count_nonzero" and len(args) == 1:
+            return sum(1 for x in vec if x)
+        if tail == "logical_not" and len(args) == 1:
+            return lift(lambda a: not a, v)
+        if tail in ("logical_or", "logical_and") and len(args) == 2:
+            return lift((lambda a, c: bool(a) or bool(c)) if tail == "logical_or" else (lambda a, c: bool(a) and bool(c)), args[0], args[1])
+        if tail == "len" and len(args) == 1 and isinstance(v, tuple):
+            return len(v)
+        raise _NoEval(f"call {au.src(e.func)}")
+    raise _NoEval(au.src(e)[:60])
+
+
+def _raise(msg):
+    raise _NoEval(msg)
+
+
+def e1_empty_box(ctx):
+    repo = ctx.repo
+    fn = repo.func(AABB, "AABB.is_empty")
+    site = ctx.site(AABB, fn)
+    cls = repo.cls(AABB, "AABB")
+    props = {}
+    for m in cls.body:
+        if isinstance(m, ast.FunctionDef) and any(isinstance(d, ast.Name) and d.id == "property" for d in m.decorator_list):
+            r = [st.value for st in au.stmts(m.body) if isinstance(st, ast.Return) and st.value is not None]
+            if len(r) == 1:
+                props[m.name] = r[0]
+    try:
+        formula = order.return_formula(fn.body)
+    except order.Unsupported as e:
+        formula = None
+        _lost(ctx, "C19-E1", site, "AABB.is_empty is no longer an if/return chain of a per-axis predicate", str(e))
+
+    def evf(f, env):
+        if f[0] == "ite":
+            t = _vec_eval(f[1], env, props)
+            if isinstance(t, tuple):
+                raise _NoEval("vector condition")
+            return evf(f[2], env) if t else evf(f[3], env)
+        if f[0] == "ret" and f[1] is not None:
+            v = _vec_eval(f[1], env, props)
+            if isinstance(v, tuple):
+                raise _NoEval("returns a vector")
+            return bool(v)
+        raise _NoEval("no returned value")
+    if formula is not None:
+        wit = None
+        n_env = 0
+        reason = None
+        try:
+            for d in (1, 2, 3):
+                for vals in itertools.product((0, 1, 2), repeat=2 * d):
+                    env = {"_p1": tuple(vals[:d]), "_p2": tuple(vals[d:])}
+                    n_env += 1
+                    want = any(a >= c for a, c in zip(env["_p1"], env["_p2"]))
+                    if evf(formula, env) != want:
+                        wit = (env, want)
+                        break
+                if wit:
+                    break
+        except _NoEval as e:
+            reason = str(e)
+        if reason is not None:
+            _lost(ctx, "C19-E1", site, "AABB.is_empty is not found in a form the per-axis evaluation recognises", reason)
+        else:
+            ctx.check(wit is None, "C19-E1", site, "AABB.is_empty is not `some axis has mini >= maxi`",
+                      (f"for the box mini={wit[0]['_p1']}, maxi={wit[0]['_p2']} the predicate answers {not wit[1]} but the box is "
+                       f"{'empty' if wit[1] else 'not empty'}: a reduction over the axes (product, sum, all) is not a per-axis test, "
+                       f"e.g. a box inverted along two axes has a positive product of spans; sample_AABB then samples a box "
+                       f"(such as an empty intersection b1 & b2) it must refuse") if wit else "",
+                      note=f"is_empty agrees with `any(mini >= maxi)` on {n_env} boxes")
+    # ---- sample_AABB refuses an empty box before doing anything else
+    fn = repo.func(SAMP, "sample_AABB")
+    site = ctx.site(SAMP, fn)
+    box_p = au.params(fn)[0]
+    guard_i = None
+    for i, st in enumerate(fn.body):
+        if isinstance(st, ast.If) and isinstance(st.test, ast.Call) and au.call_tail(st.test) == "is_empty" \
+                and isinstance(st.test.func, ast.Attribute) and isinstance(st.test.func.value, ast.Name) and st.test.func.value.id == box_p:
+            guard_i = i
+            break
+    if guard_i is None:
+        _lost(ctx, "C19-E1", site, "sample_AABB: top-level `if box.is_empty(): raise` not found",
+              "an empty box (e.g. an empty intersection) has no admissible sample: the sampler must refuse, in both modes")
+        return
+    g = fn.body[guard_i]
+    ctx.check(bool(g.body) and isinstance(g.body[-1], ast.Raise) and not g.orelse, "C19-E1", ctx.site(SAMP, fn, g),
+              "sample_AABB: the empty-box test does not end in a raise", f"`{au.src(g)[:100]}`", note="empty box raises")
+    draw_tails = {"random", "linspace", "meshgrid", "uniform", "normal", "rand", "random_sample"}
+    early = [st for st in fn.body[:guard_i] if any(au.call_tail(c) in draw_tails for c in au.calls(st))
+             or (isinstance(st, ast.If) and any(isinstance(x, ast.Return) for x in au.stmts(st.body + st.orelse)))]
+    ctx.check(not early, "C19-E1", ctx.site(SAMP, fn, g), "sample_AABB: points are drawn or returned before the empty-box test",
+              f"`{au.src(early[0])[:100] if early else ''}`", note="empty-box test precedes every draw and mode branch")
